@@ -284,14 +284,23 @@ pub fn replay_file<S: Scenario>(rf: &ReplayFile, path: &str) -> i32 {
         }
         None => {
             println!(
-                "replay of {path}: no violation on the current tree (recorded class={}); log_hash={} diverged={}",
+                "replay of {path}: no violation under strict replay (recorded class={}); log_hash={} diverged={}",
                 rf.class, lh, out.diverged
             );
             if out.diverged {
-                2
-            } else {
-                0
+                // the tree differs from the one the file was recorded on: the recorded
+                // schedule cannot be followed exactly. Try to follow it as far as possible.
+                let t = sc.execute(&Plan::Replay { traces: rf.traces.clone(), strict: false });
+                if let Some(v) = &t.violation {
+                    if v.class == rf.class {
+                        println!("tolerant replay (schedule followed while possible) reproduces class={}: {}", v.class, v.detail);
+                        println!("VIOLATION property={} replay={}", rf.property, path);
+                        return 1;
+                    }
+                }
+                println!("tolerant replay: no violation of the recorded class on the current tree");
             }
+            0
         }
     }
 }
